@@ -626,3 +626,43 @@ Lemma drop_and_empty_save E s : b_bundling s = true ->
   (b_objs_read s = [] ->
    step E s OSave = (set_b_bundle_name None (set_b_bundling false (clear_buffers s)), [], ROk)).
 Proof. intros H. split; [apply drop_ok; exact H | intros H0; apply save_empty; assumption]. Qed.
+
+(* ------------------------------------------------------------------ several open runs: the engine-side guards *)
+From BV Require Import Engine.BundlerMulti.
+
+Lemma any_bundling_spec ms :
+  any_bundling ms = true <-> exists k s, In (k, s) ms /\ b_bundling s = true.
+Proof.
+  unfold any_bundling. rewrite existsb_exists. split.
+  - intros ([k s] & Hin & Hb). exists k, s. auto.
+  - intros (k & s & Hin & Hb). exists (k, s). auto.
+Qed.
+
+Lemma multi_guards E ms k :
+  (* checkpoint, whatever run key it carries: refused while ANY registered run has a bundle open ... *)
+  ((exists k' s', In (k', s') ms /\ b_bundling s' = true) ->
+     mstep E ms (k, OCheckpoint) = (ms, [], [], RErr EIllegalMessageSequence)) /\
+  (* ... otherwise it snapshots the counters of every run and emits nothing *)
+  ((forall k' s', In (k', s') ms -> b_bundling s' = false) ->
+     mstep E ms (k, OCheckpoint) =
+       (map (fun ks => (fst ks, fst (fst (step E (snd ks) OResetCheckpoint)))) ms, [], [], ROk)) /\
+  (* configure: refused while the run it belongs to has a bundle open *)
+  (forall s o v, dget ms k = Some s -> b_bundling s = true ->
+     mstep E ms (k, OConfigure o v) = (ms, [], [], RErr EIllegalMessageSequence)) /\
+  (* every other message is handled by the bundler of its run (so the single-run statements apply to it) *)
+  (forall s o, dget ms k = Some s -> o <> OCheckpoint -> (forall ob v, o <> OConfigure ob v) ->
+     mstep E ms (k, o) =
+       (dset ms k (fst (fst (step E s o))), map (retag_doc k) (snd (fst (step E s o))),
+        b_ledger (fst (fst (step E s o))), snd (step E s o))).
+Proof.
+  split; [|split; [|split]].
+  - intros H. apply any_bundling_spec in H. cbn. rewrite H. reflexivity.
+  - intros H. cbn.
+    assert (A : any_bundling ms = false).
+    { destruct (any_bundling ms) eqn:A; [|reflexivity]. apply any_bundling_spec in A.
+      destruct A as (k' & s' & Hin & Hb). rewrite (H k' s' Hin) in Hb. discriminate Hb. }
+    rewrite A. reflexivity.
+  - intros s o v Hk Hb. cbn. rewrite Hk, Hb. reflexivity.
+  - intros s o Hk Hc Hcf. unfold mstep. rewrite Hk.
+    destruct o; try reflexivity; [exfalso; eapply Hcf; reflexivity | exfalso; apply Hc; reflexivity].
+Qed.
